@@ -82,13 +82,27 @@ func (p c14) Gen(r *simhook.Rand, tier string, idx int) harness.Scenario {
 			vals = []string{key, "STORE", key + ":dst", "ALPHA"}
 			arity = 3
 		}
+		tag := key
 		if lname == "eval" || lname == "evalsha" {
-			vals = []string{"return 1", "1", key, "x"}
+			// the script text is unique, so executions are attributable also when no key is given
+			tag = fmt.Sprintf("--e%d", k)
+			script := "return 1 " + tag
+			switch r.Intn(3) {
+			case 0:
+				vals = []string{script, "1", key, "x"}
+			case 1:
+				vals = []string{script, "0", "x", "y"}
+			default:
+				vals = []string{script, "0", "", ""}
+				if arity > 2 {
+					arity = 2
+				}
+			}
 		}
 		for i := 0; i < arity; i++ {
 			a = append(a, world.Bin(vals[i]))
 		}
-		cs.Reqs = append(cs.Reqs, world.Request{Args: a, Wait: true, GapNs: 1 + r.Intn(999), Gap: r.Intn(3), Tag: key})
+		cs.Reqs = append(cs.Reqs, world.Request{Args: a, Wait: true, GapNs: 1 + r.Intn(999), Gap: r.Intn(3), Tag: tag})
 	}
 	k := 0
 	for i := blk * block; i < (blk+1)*block && i < len(names); i++ {
@@ -108,6 +122,25 @@ func (p c14) Gen(r *simhook.Rand, tier string, idx int) harness.Scenario {
 		}
 	}
 	sc.Conns = []ConnScript{cs}
+	if sc.Env.Replicas > 0 && sc.Env.Masters > 1 && r.Chance(1, 3) {
+		// class "dynamic": a replica migrates to another master while the client works; after the proxy had time
+		// to learn the new layout a second block of commands is judged against the new truth
+		sc.Class += "+replica-move"
+		rep := sc.Env.Masters + r.Intn(sc.Env.Masters*sc.Env.Replicas)
+		sc.Faults = []Fault{{Kind: "replica-move", Node: rep, Dst: r.Intn(sc.Env.Masters), AfterSend: r.Intn(200)}}
+		sc.IdleFaults = true
+		sc.SettleMs = 200000 + r.Intn(400000)
+		first := cs.Reqs
+		cs = ConnScript{Name: "p0"}
+		for _, n := range []string{"get", "get", "get", "strlen", "hgetall", "lrange", "smembers", "zcard", "type", "ttl", "set", "eval", "geoadd", "exists"} {
+			for j := 0; j < 3; j++ {
+				add(n, k)
+				k++
+			}
+		}
+		sc.Conns = []ConnScript{{Name: "c0", Reqs: first}}
+		sc.Probes = []ConnScript{cs}
+	}
 	return sc
 }
 
@@ -171,6 +204,20 @@ func (p c14) Run(t *testing.T, s harness.Scenario) harness.Outcome {
 					}
 					// any other name: either rejected without backend traffic, or forwarded as a keyed command
 					if len(mine) == 0 {
+						return
+					}
+					if len(sc.Faults) > 0 && c.Name == "c0" && (len(w.faultSteps) == 0 || w.faultSteps[0] < 0 || sn.DoneStep >= w.faultSteps[0]) {
+						// the layout is changing under this request and the proxy cannot know yet: judged in the second block
+						return
+					}
+					if name == "eval" && len(args) > 2 && string(args[2]) == "0" {
+						// no key: the script can modify data, so it must at least not run on a replica
+						for _, le := range mine {
+							if cl.Nodes[le.Node].MasterOf >= 0 {
+								fail("write-only-at-owning-master", "EVAL without keys was sent to replica node %d", le.Node)
+								return
+							}
+						}
 						return
 					}
 					if name == "scan" {
